@@ -1,0 +1,64 @@
+//go:build verif
+
+package kernel
+
+import (
+	"github.com/MixinNetwork/mixin/common"
+	"github.com/MixinNetwork/mixin/config"
+	"github.com/MixinNetwork/mixin/crypto"
+	"github.com/MixinNetwork/mixin/kernel/internal"
+	"github.com/MixinNetwork/mixin/storage"
+	"github.com/dgraph-io/ristretto/v2"
+)
+
+// Verification hooks for C16 (validated batches can be finalized) and C28
+// (consensus operations form a serialized chain).  Thin wrappers only: every
+// decision is taken by the unmodified kernel code.
+
+const (
+	VerifC28ConsensusReferenceForkAt = mainnetConsensusReferenceForkAt
+	VerifC28MintDayGapSkipForkBatch  = mainnetMintDayGapSkipForkBatch
+)
+
+// VerifC16SetupNode runs the real SetupNode over the given store and genesis
+// with the chain aggregator goroutines mocked off, as the kernel tests do.
+func VerifC16SetupNode(custom *config.Custom, store storage.Store, gns *common.Genesis) (*Node, error) {
+	internal.ToggleMockRunAggregators(true)
+	cache, err := ristretto.NewCache(&ristretto.Config[[]byte, any]{
+		NumCounters: 1e5,
+		MaxCost:     1 << 26,
+		BufferItems: 64,
+	})
+	if err != nil {
+		return nil, err
+	}
+	return SetupNode(custom, store, cache, gns)
+}
+
+// VerifC28BareNode is the fixture of TestKernelSnapshotBatchGuards with a
+// store and a network id: a Node that only knows who it is.
+func VerifC28BareNode(store storage.Store, id, networkId crypto.Hash) *Node {
+	return &Node{IdForNetwork: id, networkId: networkId, persistStore: store}
+}
+
+func (node *Node) VerifC16NetworkId() crypto.Hash { return node.networkId }
+
+func (node *Node) VerifC16GenesisNodes() []crypto.Hash { return node.genesisNodes }
+
+func (node *Node) VerifC16ValidateSnapshotTransaction(s *common.Snapshot, finalized bool) (map[crypto.Hash]*common.VersionedTransaction, []crypto.Hash, error) {
+	return node.validateSnapshotTransaction(s, finalized)
+}
+
+func (node *Node) VerifC28ValidateKernelSnapshot(s *common.Snapshot, found map[crypto.Hash]*common.VersionedTransaction, finalized bool) error {
+	return node.validateKernelSnapshot(s, found, finalized)
+}
+
+func (node *Node) VerifC28ValidateConsensusTransactionReferences(s *common.Snapshot, tx *common.VersionedTransaction) error {
+	return node.validateConsensusTransactionReferences(s, tx)
+}
+
+// VerifC16StopLoops stops the topology statistics goroutine SetupNode started
+// (the chain loops are mocked off) without closing the store.
+func (node *Node) VerifC16StopLoops() {
+	close(node.done)
+}
